@@ -252,6 +252,15 @@ where
             return Err(PlanningError::InvalidStartState);
         }
 
+        // The goal tree must be rooted at a valid goal state: resample the root until the
+        // validity checker accepts it or the time runs out.
+        while self.goal_tree.len() == 1 && !vc.is_valid(&self.goal_tree[0].state) {
+            if start_time.elapsed() > timeout {
+                return Err(PlanningError::Timeout);
+            }
+            self.goal_tree[0].state = goal.sample_goal(&mut rng).unwrap();
+        }
+
         // Main loop
         loop {
             // 1. Check for timeout
